@@ -83,17 +83,16 @@ Definition required (c : cfg) (k : dkind) (a : attr) : bool :=
   match k with KType _ => readable c a | _ => true end.
 
 (* ------------------------------------------------------------------ (c) the client procedure *)
-(* a responder answers lo..hi with the returned handles; None = Attribute Not Found *)
-Fixpoint discover_all (fuel : nat) (r : N -> N -> option (list N)) (lo hi : N) : list N :=
+(* a responder answers lo..hi with the returned handles and the handle behind which the client continues
+   (the last handle; for groups the last end group handle); None = Attribute Not Found *)
+Fixpoint discover_all (fuel : nat) (r : N -> N -> option (list N * N)) (lo hi : N) : list N :=
   match fuel with
   | O => []
   | S f =>
       if hi <? lo then []
       else match r lo hi with
            | None => []
-           | Some hs =>
-               let l := last hs 0 in
-               hs ++ (if (hi <=? l) || (65535 <=? l) then [] else discover_all f r (l + 1) hi)
+           | Some (hs, l) => hs ++ (if (hi <=? l) || (65535 <=? l) then [] else discover_all f r (l + 1) hi)
            end
   end.
 
